@@ -105,7 +105,7 @@ func (g *Gen) Draw() txgen.Tx {
 			fns = append(fns, a.fn)
 		}
 	}
-	i := rapid.IntRange(0, len(names)-1).Draw(g.T, "action")
+	i := g.Uniform(len(names), "action")
 	return fns[i](g)
 }
 
@@ -117,7 +117,7 @@ func (g *Gen) drawBurst() []txgen.Tx {
 	if k != nil {
 		ev, gov = k["allegation_vote"], k["proposal_vote"]
 	}
-	r := rapid.IntRange(0, 19).Draw(g.T, "burst")
+	r := g.Uniform(20, "burst")
 	switch {
 	case ev >= 5 && r < 2:
 		return g.AllegationPair()
@@ -182,6 +182,11 @@ func (w *World) Observe(txs []txgen.Tx, res *sim.BlockRes) {
 				v, _ := strconv.ParseInt(parts[3], 10, 64)
 				ty, _ := strconv.Atoi(parts[4])
 				w.Props = append(w.Props, &PropInfo{ID: governance.ProposalID(parts[0]), Type: governance.ProposalType(ty), Proposer: ui, FundDL: f, VoteDL: v, Created: res.Height, Funders: []int{ui}})
+			}
+		case "DOMAIN_CREATE":
+			if len(parts) == 2 {
+				ui, _ := strconv.Atoi(parts[1])
+				w.Domains = append(w.Domains, &DomInfo{Name: parts[0], Owner: ui})
 			}
 		case "ALLEGATION":
 			if len(parts) == 3 {
